@@ -45,6 +45,8 @@ THEOREMS = [
     "C16_assign_parameters_sound",
     "C16_transfer_only_ligand_refuted",
     "C16_transfer_only_ligand_partial",
+    "C16_transfer_guard_exact",
+    "C16_formal_charge_equivariant",
     "C16_nonvacuous",
 ]
 ALLOWED_AXIOMS: list = []
@@ -912,7 +914,7 @@ def build_complexes(rng, thorough):
     # F4: a ligand whose atoms are named like water atoms: every water line is written twice
     cx("f4-waternames", ["O", "H1", "H2"], ["O.3", "H", "H"], [(0, 1, "1"), (0, 2, "1")], waters(2, ("O", "H1", "H2")), False)
     # randomised: generated ligand, naming scheme, waters, optional hetero group sharing a subset of names
-    for k in range(12 if thorough else 3):
+    for k in range(16 if thorough else 5):
         g = gen_organic(rng, maxn=10)
         scheme = rng.choice(["safe", "default", "default"])
         names = [f"{t.split('.')[0].upper()[:1]}Q{i}" for i, t in enumerate(g.types)] if scheme == "safe" else default_names(g.types)
@@ -946,7 +948,7 @@ def run(ctx):
     broken = not ok
 
     # ---------------- cases -------------------------------------------------
-    n_org, n_wild, n_mal, n_q = (5000, 2500, 500, 240) if ctx.thorough else (560, 260, 60, 36)
+    n_org, n_wild, n_mal, n_q = (5000, 2500, 500, 240) if ctx.thorough else (560, 260, 60, 45)
     cases = []
     for f in stored_mol2_files():
         try:
